@@ -568,6 +568,8 @@ def never_bound_names(fn, mi, prog=None):
     import builtins
     if getattr(mi, 'star_imports', None):
         return []
+    if getattr(fn, '_inlined', None) or any(isinstance(n, ast.Name) and n.id.startswith('__h') for n in ast.walk(fn)):
+        return []            # helpers of other modules were expanded into this body: their names belong to those modules
     pm = prog.modules.get(mi.name + '#pxd') if prog is not None else None
     if pm is not None and pm.star_imports:
         return []
